@@ -169,6 +169,29 @@ def _c02_falsy_mapping():
     return None
 
 
+def _c20_surrogate_pair_id():
+    from TreeDisplay.TreeTag import encode_seq, decode_seq
+    st = [['\ud83d\ude00', []]]
+    try:
+        back = decode_seq(encode_seq(st))
+    except Exception as e:  # noqa
+        return {'input': "state [['\\ud83d\\ude00', []]] (a high and a low surrogate as two code points)", 'raises': repr(e)[:100]}
+    if back != st:
+        return {'input': "state [['\\ud83d\\ude00', []]] (a high and a low surrogate as two code points)",
+                'decoded': ascii(back)}
+    return None
+
+
+def _c20_bytes_id():
+    from TreeDisplay.TreeTag import encode_seq, decode_seq
+    st = [[b'ab', []]]
+    try:
+        back = decode_seq(encode_seq(st))
+    except Exception as e:  # noqa
+        return {'input': "state [[b'ab', []]] (a bytes node id)", 'raises': repr(e)[:100]}
+    return None if back == st else {'input': "state [[b'ab', []]]", 'decoded': ascii(back)}
+
+
 PROBES = {
     'C13': [('C13-locale-none', _c13_locale_none)],
     'C05': [('C05-tree-sort-key', _c05_tree_sort_key), ('C05-tree-id', _c05_tree_id),
@@ -176,6 +199,7 @@ PROBES = {
     'C16': [('C16-index-column', _c16_index_column), ('C16-hyphen-column', _c16_hyphen_column)],
     'C07': [('C07-var-named-var', _c07_var_named_var)],
     'C02': [('C02-falsy-mapping', _c02_falsy_mapping)],
+    'C20': [('C20-surrogate-pair-id', _c20_surrogate_pair_id), ('C20-bytes-id', _c20_bytes_id)],
 }
 
 
